@@ -6,45 +6,45 @@ props = [json.loads(l) for l in open(os.path.join(V, 'properties.jsonl'))]
 TB = "Trusted base: Go toolchain; the reference codec of go-cassandra-native-protocol (used to generate and to decode for comparison); the harness' fakecass backend, rawcql client, generators and reference models."
 checks = {
  'C01': dict(cat='exploration', tech='runtime monitoring: exactly-once pairing over recorded client/backend histories + bounded-progress rule, gate hooks ordering connection deaths',
-   text='Held on the executions produced: outcome storms, all/selected linear extensions of the six-gate connection-death order, unhooked mass deaths, stream exhaustion. A lost or duplicated reply on any (client, stream) in those runs is reported with the history and a goroutine dump. Says nothing about schedules the workloads did not produce.', ref='2/C01'),
+   text='Held on the executions produced: outcome storms, all/selected linear extensions of the six-gate connection-death order, unhooked mass deaths, connections killed under fire, connections the proxy closes itself (idle timeout, removed host) with requests in flight, stream exhaustion. A lost or duplicated reply on any (client, stream) in those runs is reported with the history and a goroutine dump. Says nothing about schedules the workloads did not produce.', ref='2/C01'),
  'C02': dict(cat='exploration', tech='runtime monitoring: token/prepared-id/kind identity oracle over recorded histories with unique tokens',
-   text='Every reply observed (tens of thousands per quick run) is matched to the request sent on that (client, stream) through the unique token the backend echoes; covers equal stream ids on many clients, permuted backend replies, >10x recycling of all 2048 backend stream ids, exhaustion bursts, failover storms and concurrent re-prepares with a widened window.', ref='2/C02'),
+   text='Every reply observed (tens of thousands per quick run) is matched to the request sent on that (client, stream) through the unique token the backend echoes; covers equal stream ids on many clients, permuted backend replies, >10x recycling of all 2048 backend stream ids, exhaustion bursts, failover storms, concurrent re-prepares with a widened window and a heartbeat reply that arrives after its stream id has been reused.', ref='2/C02'),
  'C03': dict(cat='exploration', tech='runtime monitoring: byte comparison of raw frames recorded at the client and backend boundaries (nothing decoded)',
-   text='3000 (quick) / 30000 (thorough) generated request frames over version x compression x opcode x option flags x header decorations x size class x content class, each answered with a generated response of every RESULT kind / ERROR code with tracing, warnings, payload; both directions compared byte for byte except the stream id.', ref='2/C03'),
+   text='3000 (quick) / 150000 (thorough) generated request frames over version x compression x opcode x option flags x header decorations x size class x content class, each answered with a generated response of every RESULT kind / ERROR code with tracing, warnings, payload; both directions compared byte for byte except the stream id; plus retry storms and deterministic retry-twice-with-pipelined-requests cases in which every attempt reaching a backend must carry its own request's bytes.', ref='2/C03'),
  'C04': dict(cat='fault_enumeration', tech='runtime monitoring: fault enumeration with an oracle on the backend arrival log (no arrival k+1 unless outcome k cannot have applied the request) and on the final client frame',
-   text='Nine classes of requests that are not positively idempotent by construction (20 statement forms; prepared here / by another client / never through the proxy / forgotten by the host; batches; graph payload) x every complete outcome sequence for 1-2 hosts and PRNG walks for 3-4, plus connection loss after a partial reply and before the request is read.', ref='2/C04'),
+   text='Nine classes of requests that are not positively idempotent by construction (20 statement forms; prepared here / by another client / never through the proxy / forgotten by the host; batches; graph payload) x every complete outcome sequence for 1-2 hosts and PRNG walks for 3-4, (outcomes include error frames the protocol library cannot decode), plus connection loss after a partial reply, before the request is read, and by the proxy's own close (idle timeout, removed host).', ref='2/C04'),
  'C05': dict(cat='fault_enumeration', tech='runtime monitoring: fault enumeration of per-attempt outcomes against an executable model of the documented policy',
-   text='Exhaustive enumeration of the complete outcome sequences of the documented decision tree for 1-3 hosts (quick) / 1-4 hosts (thorough) x request kind x idempotency class, plus PRNG walks for 3-4 hosts; every observed attempt trace (host order, outcome) and final client frame must equal the model. The four decision functions are driven over all retry counts 0-4 x field grids.', ref='2/C05'),
+   text='Exhaustive enumeration of the complete outcome sequences of the documented decision tree for 1-3 hosts (quick) / 1-4 hosts (thorough) x request kind x idempotency class, plus PRNG walks for 3-4 hosts; every observed attempt trace (host order, outcome) and final client frame must equal the model. The four decision functions are driven over all retry counts 0-4 x field grids. Targeted: connection dying between registration and write, same-host retry on a removed host, each slot of a two-connection pool lost in turn.', ref='2/C05'),
  'C06': dict(cat='exploration', tech='runtime monitoring of a pure function: PRNG grammar-based generation with ground truth by construction, metamorphic re-spelling oracle, hostile-input totality oracle in crash-isolated child processes',
-   text='40k (quick) / 2M (thorough) generated statements with truth IDEMP / NONIDEMP(reason) / EITHER x 4-6 re-spellings (letter case, whitespace kinds, terminator; lone CR and $$-strings as separate sub-checks), 40k / 2M hostile strings, nesting up to 1e5 (quick) / 16 Mi (thorough, one child process per case).', ref='2/C06'),
+   text='40k (quick) / 2M (thorough) generated statements with truth IDEMP / NONIDEMP(reason) / EITHER x 4-6 re-spellings (letter case, whitespace kinds, terminator; lone CR and $$-strings as separate sub-checks), 40k / 2M hostile strings, nesting up to 1e5 (quick) / 16 Mi (thorough, one child process per case), crafted identifiers in every identifier position, flat repetition (1025-4000x) of every guaranteed construct.', ref='2/C06'),
  'C07': dict(cat='exploration', tech='runtime monitoring: per-client sequential register model vs connection attributes echoed by the backend',
-   text='Concurrent multi-client histories (versions v3/v4/v5/DSE, none/lz4/snappy) of USE variants and data requests; every data reply echoes keyspace/version/compression of the backend connection it ran on, compared with the client model in send order.', ref='2/C07'),
+   text='Concurrent multi-client histories (versions v3/v4/v5/DSE, none/lz4/snappy) of USE variants (a quarter as PREPARE+EXECUTE) and data requests, with host restarts and simultaneous USE of a new keyspace; every data reply echoes keyspace/version/compression of the backend connection it ran on, compared with the client model in send order.', ref='2/C07'),
  'C08': dict(cat='exploration', tech='runtime monitoring: history oracle over merged client/backend logs (UNPREPARED never reaches the client; re-PREPARE text, acceptability and fail-over)',
-   text='All subsets of forgetful hosts for 2-3 hosts x compression, batch children, v3 clients, hosts added after start-up, cross-compression/cross-version prepare/execute, failing re-prepares.', ref='2/C08'),
+   text='All subsets of forgetful hosts for 2-3 hosts x compression, batch children, v3 clients, hosts added after start-up, cross-compression/cross-version prepare/execute, failing re-prepares, multi-child batches, EXECUTE right behind its PREPARE (slow cache), pipelined EXECUTEs whose re-PREPARE is lost or refused.', ref='2/C08'),
  'C09': dict(cat='exploration', tech='runtime monitoring: expected decision computed by construction from tuple coordinates; backend-log oracle for end-to-end routing',
-   text='Exhaustive product of (current keyspace, kind, qualifier, table, selectors, trailing clause) = 316 800 tuples against IsQueryHandled in both tiers; PRNG sample end to end as QUERY and PREPARE+EXECUTE on a live proxy: the token reaches a backend iff not expected handled, and no system.local/peers read appears in any non-control backend log.', ref='2/C09'),
+   text='Exhaustive product of (current keyspace, kind, qualifier, table, selectors incl. five the proxy cannot evaluate, trailing clause) = 580 800 tuples against IsQueryHandled in both tiers; PRNG sample end to end as QUERY and PREPARE+EXECUTE on a live proxy: the token reaches a backend iff not expected handled, and no system.local/peers read appears in any non-control backend log.', ref='2/C09'),
  'C10': dict(cat='exploration', tech='runtime monitoring: reference model of the virtual tables computed from the configuration; cells decoded with the reference datacodec; cross-instance comparison',
    text='Generated peer lists (0-16 IPv4/IPv6, self in/out, DC/tokens present or not, DSE or not) x 30 selector lists as QUERY and PREPARE+EXECUTE on v3 and v4; one real Proxy per list entry for mutual consistency; restart and cross-process host-id stability.', ref='2/C10'),
  'C11': dict(cat='exploration', tech='runtime monitoring of pure functions: differential test of the partial codecs against the reference codec on generated, truncated, mutated and random bodies',
    text='20k (quick) / 500k (thorough) reference-encoded QUERY/EXECUTE/BATCH messages over all five versions: partial decode fields == reference decode, partial re-encode == input bytes; every prefix, single-field mutations and random bytes: error or bounded success, never a panic or over-read.', ref='2/C11'),
  'C12': dict(cat='exploration', tech='runtime monitoring: byte-level comparison of client-sent and backend-received bodies with the expected two-byte consistency substitution, sentinel request for framing',
-   text='Generated (unsupported set, override) configurations through proxy.Run (flags and YAML) x 150 generated requests each over five versions and three compressions; rewrite expected iff non-SELECT QUERY / EXECUTE of a non-SELECT id / BATCH with a consistency in the set; otherwise byte-identical; with no list nothing is modified.', ref='2/C12'),
+   text='Generated (unsupported set, override) configurations through proxy.Run (flags and YAML) x 150 generated requests each over five versions and three compressions; rewrite expected iff non-SELECT QUERY / EXECUTE of a non-SELECT id / BATCH with a consistency in the set; otherwise byte-identical; with no list nothing is modified; EXECUTE of a SELECT prepared a moment earlier.', ref='2/C12'),
  'C13': dict(cat='exploration', tech='runtime monitoring: per-stream reply counting, independently computed version predicate, backend-log oracle for forwarding',
-   text='All known version bytes x opcodes x configured max versions; all 250 unknown version bytes; STARTUP option maps; all orders of OPTIONS/STARTUP/REGISTER/QUERY up to length 4, awaited and pipelined.', ref='2/C13'),
+   text='All known version bytes x opcodes x configured max versions; all 250 unknown version bytes; STARTUP option maps; all orders of OPTIONS/STARTUP/REGISTER/QUERY up to length 4, awaited and pipelined (thorough: the pipelined ones 240 times).', ref='2/C13'),
  'C14': dict(cat='exploration', tech='runtime monitoring: exactly-once counting of uniquely identified events over recorded client frames, sentinel-event logical barrier',
-   text='Histories of connect/register(subsets)/disconnect with bursts of schema, topology and status events, concurrent register/disconnect during bursts, control-connection failover between bursts and two proxies on one backend; per (client, event id) delivery counts are compared with must/may/never target sets.', ref='2/C14'),
+   text='Histories of connect/register(subsets)/disconnect with bursts of schema, topology and status events, concurrent register/disconnect during bursts, control-connection failover between bursts (also after a failed refresh), bursts followed at once by the end of the control connection, zombie clients and two proxies on one backend; per (client, event id) delivery counts are compared with must/may/never target sets.', ref='2/C14'),
  'C15': dict(cat='exploration', tech='runtime monitoring: set-model oracle over exhaustively enumerated event histories; porcupine linearizability check of recorded concurrent histories',
-   text='All well-formed bootstrap/add/remove histories over <=5 hosts up to length 7 (quick) / 9 (thorough) with fresh, held and partially consumed plans; counter-wrap via the tag-guarded preset and, in thorough, 2^32+10 real NewQueryPlan calls; concurrent histories checked with porcupine against a 15-line model.', ref='2/C15'),
+   text='All well-formed bootstrap/add/remove histories over <=5 hosts up to length 7 (quick) / 9 (thorough) with fresh, held and partially consumed plans; counter-wrap via the tag-guarded preset and, in thorough, 2^32+10 real NewQueryPlan calls; concurrent histories checked with porcupine against a 15-line model; end to end: topology sequences announced through a real control connection (some refreshes failing), plans of the proxy's load balancer compared with the backend's membership.', ref='2/C15'),
  'C16': dict(cat='fault_enumeration', tech='runtime monitoring: backend-side observation of refresh/reconnect events, recording ReconnectPolicy, bounds oracle on the backoff calculator, outage/readiness sampled at known states',
-   text='Topology sequences (add/remove/restart, failed USE earlier) with routing checked after each observable refresh; kill/mute faults on pooled and control connections, single and simultaneous; backoff calculator grid; OutageDuration() and /readiness (through proxy.Run) at states the harness knows.', ref='2/C16'),
+   text='Topology sequences (add/remove/restart, failed USE earlier) with routing checked after each observable refresh; kill/mute faults on pooled and control connections, single and simultaneous, muted connections with requests in flight (verdict by answered client round trips); backoff calculator grid; OutageDuration() and /readiness (through proxy.Run) at states the harness knows.', ref='2/C16'),
  'C17': dict(cat='exploration', tech='runtime monitoring of the real binary as a subprocess: liveness + canary clients as oracle, stderr scanned for panic/fatal, hostile inputs logged before sending',
-   text='3000 (quick) / 80000 (thorough) hostile client byte streams per max-version setting (header fields over their whole range, truncations, lying lengths up to 16 MiB, hostile strings in every string field, deep nesting, hostile lz4/snappy, slow-loris), ~50 kinds of hostile backend replies incl. control-connection garbage and bad heartbeat replies, 12 malformed system.local/peers results at start-up, refresh and fail-over; after every batch two canaries (plain, lz4) must get correct answers.', ref='2/C17'),
+   text='6000 (quick) / 80000 (thorough) hostile client byte streams per max-version setting (header fields over their whole range, truncations, lying lengths up to 16 MiB, hostile strings in every string field, deep nesting, hostile lz4/snappy incl. blocks ending around the announced length, first-on-connection statement/op pairs, slow-loris), ~50 kinds of hostile backend replies incl. control-connection garbage and bad heartbeat replies, 12 malformed system.local/peers results at start-up, refresh and fail-over; after every batch two canaries (plain, lz4) must get correct answers.', ref='2/C17'),
  'C18': dict(cat='exploration', tech='Go race detector (-race build, halt_on_error=0) over the concurrent scenario families; reports deduplicated by top-most repository frames',
-   text='Nine concurrent families (C01 storm/mass death/ordered deaths, C02 reorder/re-prepare, C07 concurrent USE, C08 re-prepare/late host, C14 bursts/failover, C16 topology/heal) x 2 (quick) / 10 (thorough) seeds on all cores; hook-event counts show the contended paths were reached.', ref='2/C18'),
+   text='Eleven concurrent families (C01 storm/mass death/ordered deaths, C02 reorder/re-prepare, C07 concurrent USE, C08 re-prepare/late host, C14 bursts/failover, C16 topology/heal, topology changes under traffic, hostile client inputs beside normal traffic) x 2 (quick) / 10 (thorough) seeds on all cores; hook-event counts show the contended paths were reached.', ref='2/C18'),
  'C20': dict(cat='exploration', tech='runtime monitoring of the real binary as a subprocess (and proxy.Run in-process): observed STARTUP version byte, accepted version set, consistency seen at the backend, exit status',
-   text='Every documented spelling x letter case of protocol-version / max-protocol-version and of every consistency name (flag, env, YAML), all 5x5 (version, max) pairs, and the invalid-configuration families with valid neighbours: an invalid configuration must exit non-zero and never reach the running state.', ref='2/C20'),
+   text='Every documented spelling x letter case of protocol-version / max-protocol-version and of every consistency name (flag, env, YAML), all 5x5 (version, max) pairs, and the invalid-configuration families with valid neighbours (every peer-token layout of 1-3 remote peers x own entry in the list): an invalid configuration must exit non-zero and never reach the running state.', ref='2/C20'),
  'C19': dict(cat='exploration', tech='runtime monitoring: harness TLS servers logging SNI, client certificate, handshake result and application bytes; accept/reject decided by construction of the chain',
-   text='Real astra package end to end (bundle zip, metadata HTTPS, node connections through ConnectClient/Handshake) against 9 chain kinds x generated names/ids x TLS 1.2/1.3.', ref='2/C19'),
+   text='Real astra package end to end (bundle zip, metadata HTTPS, node connections through ConnectClient/Handshake) against 9 chain kinds x generated names/ids x TLS 1.2/1.3, certificates expiring after the endpoint was created, several endpoints of one bundle in every order, forged twins of the genuine certificate before and after a genuine handshake.', ref='2/C19'),
 }
 reasons_pending = "check not built yet in this session (planned, see DESIGN.md section 2); nothing is claimed for it until its check exists"
 m = {
